@@ -16,7 +16,7 @@ applyp() { (cd "$S/repo" && (git apply "$1" 2>/dev/null || git apply -3 "$1" 2>/
 if [ "$mode" = validate ]; then
   cp -a /repo/target "$S/repo/target" 2>/dev/null
   demo_cmd=$(python3 -c "import json,sys;print(json.load(open('$seed/meta.json'))['demo_cmd'])")
-  demo_cmd=$(echo "$demo_cmd" | sed -E "s#/tmp/(wt|w2|w3)-[A-Za-z0-9]+#$S/repo#g")
+  demo_cmd=$(echo "$demo_cmd" | sed -E "s#/tmp/(wt|w2|w3|w4)-[A-Za-z0-9]+#$S/repo#g")
   res="$seed/validation.txt"; : > "$res"
   applyp "$seed/demo.diff" || { echo "demo.diff does not apply" | tee -a "$res"; exit 1; }
   (cd "$S/repo" && eval "$demo_cmd" > "$S/demo0.log" 2>&1); a=$?
